@@ -104,32 +104,51 @@ fn tr_err(e: TranslateError) -> Vec<i128> {
     }
 }
 
+/// executes a page flush token under the software CPU and checks that it is exactly one INVLPG of `page`
+fn flush_page_token_ok(flush: impl FnOnce(), page: u64) -> bool {
+    let c = softcpu::cpu();
+    c.take_log();
+    flush();
+    let log = c.take_log();
+    log.len() == 1 && log[0].op == softcpu::Op::Invlpg && log[0].a == page
+}
+/// executes a flush-all token: exactly MOV from CR3, then MOV to CR3 of the value just read
+fn flush_all_token_ok(flush: impl FnOnce()) -> bool {
+    let c = softcpu::cpu();
+    c.take_log();
+    let before = c.cr[3];
+    flush();
+    let log = c.take_log();
+    log.len() == 2 && log[0].op == softcpu::Op::MovFromCr && log[0].a == 3 && log[1].op == softcpu::Op::MovToCr && log[1].a == 3 && log[1].b == before && c.cr[3] == before
+}
+const BAD_FLUSH: i128 = -23;
+
 fn ops_sized<S: PageSize, M: Mapper<S>>(m: &mut M, a: &mut Alloc, op: &[u64]) -> Vec<i128> {
     unsafe {
         match op {
             [1, _, page, frame, flags] => match m.map_to(pg::<S>(*page), fr::<S>(*frame), fl(*flags), a) {
-                Ok(f) => { let p = f.page().start_address().as_u64(); f.ignore(); vec![0, p as i128] }
+                Ok(f) => { let p = f.page().start_address().as_u64(); if !flush_page_token_ok(|| f.flush(), p) { return vec![BAD_FLUSH]; } vec![0, p as i128] }
                 Err(e) => map_err(e),
             },
             [2, _, page, frame, flags, pflags] => match m.map_to_with_table_flags(pg::<S>(*page), fr::<S>(*frame), fl(*flags), fl(*pflags), a) {
-                Ok(f) => { let p = f.page().start_address().as_u64(); f.ignore(); vec![0, p as i128] }
+                Ok(f) => { let p = f.page().start_address().as_u64(); if !flush_page_token_ok(|| f.flush(), p) { return vec![BAD_FLUSH]; } vec![0, p as i128] }
                 Err(e) => map_err(e),
             },
             [3, _, frame, flags] => match m.identity_map(fr::<S>(*frame), fl(*flags), a) {
-                Ok(f) => { let p = f.page().start_address().as_u64(); f.ignore(); vec![0, p as i128] }
+                Ok(f) => { let p = f.page().start_address().as_u64(); if !flush_page_token_ok(|| f.flush(), p) { return vec![BAD_FLUSH]; } vec![0, p as i128] }
                 Err(e) => map_err(e),
             },
             [4, _, page] => match m.unmap(pg::<S>(*page)) {
-                Ok((f, t)) => { let p = t.page().start_address().as_u64(); t.ignore(); vec![0, f.start_address().as_u64() as i128, p as i128] }
+                Ok((f, t)) => { let p = t.page().start_address().as_u64(); if !flush_page_token_ok(|| t.flush(), p) { return vec![BAD_FLUSH]; } vec![0, f.start_address().as_u64() as i128, p as i128] }
                 Err(e) => unmap_err(e),
             },
             [5, _, page, flags] => match m.update_flags(pg::<S>(*page), fl(*flags)) {
-                Ok(t) => { let p = t.page().start_address().as_u64(); t.ignore(); vec![0, p as i128] }
+                Ok(t) => { let p = t.page().start_address().as_u64(); if !flush_page_token_ok(|| t.flush(), p) { return vec![BAD_FLUSH]; } vec![0, p as i128] }
                 Err(e) => flag_err(e),
             },
             [6, _, level, page, flags] => {
                 let r = match level { 4 => m.set_flags_p4_entry(pg::<S>(*page), fl(*flags)), 3 => m.set_flags_p3_entry(pg::<S>(*page), fl(*flags)), _ => m.set_flags_p2_entry(pg::<S>(*page), fl(*flags)) };
-                match r { Ok(t) => { t.ignore(); vec![0] } Err(e) => flag_err(e) }
+                match r { Ok(t) => { if !flush_all_token_ok(|| t.flush_all()) { return vec![BAD_FLUSH]; } vec![0] } Err(e) => flag_err(e) }
             }
             [7, _, page] => match m.translate_page(pg::<S>(*page)) {
                 Ok(f) => vec![0, f.start_address().as_u64() as i128],
@@ -253,6 +272,8 @@ fn run_inner(c: &[u64]) -> Vec<i128> {
     softcpu::install_once();
     physmem::XOR_MASK.store(if kind == 2 { 0x0000_0003_5a00_0000 & !0xfff } else { 0 }, Ordering::SeqCst);
     physmem::MMU_ROOT.store(root, Ordering::SeqCst);
+    softcpu::cpu().reset();
+    softcpu::cpu().cr[3] = root | 0x5a5;     // what a flush-all token must write back unchanged
     // memory pre-filled with arbitrary non-zero words; the level-4 table starts empty
     for f in &frames {
         physmem::fill_background(*f);
